@@ -7,6 +7,7 @@ Core Lean only.
 -/
 import MdVerif.Lemmas.RenderX
 import MdVerif.Lemmas.RenderXDoc
+import MdVerif.Lemmas.RenderXBlock
 import MdVerif.Lemmas.DocParse2
 
 namespace MdVerif.RenderX
@@ -564,5 +565,157 @@ theorem convertX_nl2br (cfg : Pipeline.Cfg) (hbl : cfg.blockLevel = TreeProc.def
   rw [show (Node.el "div").append (Block.mkText "p" (joinLines (l0 :: r))) = nlDoc l0 r from rfl, hrun]
   simp only [hbl, hpre, hun, hser]
   exact hfin
+
+/-! ### nl2br together with the other extensions of the model -/
+
+theorem table_nl_gen (fn wl : Bool) :
+    ∃ m, (InlineX.table fn wl true)[m]? = some PatK.nl ∧ m + 1 = (InlineX.table fn wl true).length ∧
+      ∀ p, p < m → (InlineX.table fn wl true)[p]? ≠ some PatK.nl := by
+  cases fn <;> cases wl
+  · exact ⟨16, by decide, by decide, by decide⟩
+  · exact ⟨17, by decide, by decide, by decide⟩
+  · exact ⟨17, by decide, by decide, by decide⟩
+  · exact ⟨18, by decide, by decide, by decide⟩
+
+/-- the block stage with any block extensions: one paragraph, empty log -/
+theorem parseDocumentXT_plain (cfg : BlockExt.XCfg) (tab : Nat) (htab : tab > 0) (l0 : Str) (r : List Str)
+    (h : ∀ l ∈ l0 :: r, PlainFacts l) :
+    BlockExt.parseDocumentXT false cfg tab (joinLines (l0 :: r) ++ ['\n', '\n']) =
+      some ((Node.el "div").append (Block.mkText "p" (joinLines (l0 :: r))), []) := by
+  obtain ⟨_, _, _, hne, _⟩ := block_facts l0 r h
+  have hsplit : splitS ['\n', '\n'] (joinLines (l0 :: r) ++ ['\n', '\n']) = [joinLines (l0 :: r), []] := by
+    simp only [splitS]; exact Escape.splitAux_blocks true _ hne
+  have hfuel : BlockExt.fuelForX (joinLines (l0 :: r) ++ ['\n', '\n']).length =
+      (2 * (joinLines (l0 :: r) ++ ['\n', '\n']).length + 8) + 1 + 1 := by simp only [BlockExt.fuelForX]
+  have h1 := fun pb rest => dispatchXT_plain cfg tab htab pb [] [] (Node.el "div") l0 r rest h
+  have hpara := paraP_plain [] (by decide) [] (Node.el "div") l0 r [[]] h
+  have hpre : Block.preCode (Block.mkText "p" (joinLines (l0 :: r))) = none := by
+    have : (Block.mkText "p" (joinLines (l0 :: r))).isTag "pre" = false := by
+      simp only [Block.mkText, Node.isTag, Node.el]; decide
+    simp [Block.preCode, this]
+  have h3 : ∀ pb, BlockExt.dispatchXT false cfg tab pb [] []
+      ((Node.el "div").append (Block.mkText "p" (joinLines (l0 :: r)))) [] [] =
+      some ((Node.el "div").append (Block.mkText "p" (joinLines (l0 :: r))), [], []) := by
+    intro pb
+    simp only [BlockExt.dispatchXT, admTest_plain tab htab _ [] (by simp) (by simp), ite_self, BlockExt.tailEmptyT,
+      List.isEmpty_nil, Bool.true_or, if_true, Block.emptyP, CodeLaw.last_append, hpre, List.drop_nil]
+  simp only [BlockExt.parseDocumentXT, Block.parseChunk, hsplit]
+  rw [hfuel]
+  simp only [BlockExt.parseBlocksXT, h1, hpara, h3]
+
+theorem duplicatesKids_brs (fn : Footnotes.State) (r : List Str) :
+    FootnotesTree.duplicatesKids fn (r.map brTail) = some (r.map brTail) := by
+  induction r with
+  | nil => rfl
+  | cons l r ih =>
+    simp only [List.map_cons, FootnotesTree.duplicatesKids, ih]
+    simp [FootnotesTree.duplicates, FootnotesTree.duplicatesKids, brTail, brNode, mkEl]
+
+theorem duplicates_nlMid (fn : Footnotes.State) (l0 : Str) (r : List Str) :
+    FootnotesTree.duplicates fn (nlMid l0 r) = some (nlMid l0 r) := by
+  simp [nlMid, Node.el, Block.mkText, FootnotesTree.duplicates, FootnotesTree.duplicatesKids, duplicatesKids_brs]
+
+theorem postprocess_id (s : Str) (h : Post.STX ∉ s) : FootnotesTree.postprocess s = s := by
+  have h1 : contains s FootnotesTree.fnBacklinkText = false := by
+    rw [contains_eq_false_iff]
+    intro pre post e
+    apply h
+    rw [e, show FootnotesTree.fnBacklinkText = Post.STX :: ("zz1337820767766393qq".toList ++ [FootnotesTree.ETX]) from rfl]
+    simp
+  have h2 : contains s FootnotesTree.nbspPlaceholder = false := by
+    rw [contains_eq_false_iff]
+    intro pre post e
+    apply h
+    rw [e, show FootnotesTree.nbspPlaceholder = Post.STX :: ("qq3936677670287331zz".toList ++ [FootnotesTree.ETX]) from rfl]
+    simp
+  unfold FootnotesTree.postprocess
+  rw [replace_id_of_not_contains _ h1, replace_id_of_not_contains _ h2]
+
+/-- the end of `convertX` on `<div>\nJ\n</div>\n` when nothing is in the HTML stash, footnotes on or off -/
+theorem finishX_wrapped' (x : PipelineX.Exts) (cfg : Pipeline.Cfg) (J : Str)
+    (hstx : Post.STX ∉ J) (hh : ∀ c, J.head? = some c → isSpace c = false)
+    (hl : ∀ c, J.getLast? = some c → isSpace c = false) :
+    PipelineX.finishX x cfg [] ("<div>".toList ++ ('\n' :: J ++ ['\n']) ++ "</div>\n".toList) = .ok J := by
+  have hs : strip J = J := strip_eq_self hh hl
+  have hs2 : strip ('\n' :: J ++ ['\n']) = J := by
+    have := strip_append_of_blank (a := ['\n']) (b := ['\n']) (by decide) (by decide) J
+    have e : '\n' :: J ++ ['\n'] = ['\n'] ++ J ++ ['\n'] := by simp
+    rw [e, this, hs]
+  simp only [PipelineX.finishX, Escape.topLevelStrip_div, hs2, PipelineX.postX, Post.rawHtmlFuel, List.length_nil,
+    Post.rawHtml, List.isEmpty_nil, if_true, Option.map_some, postprocess_id J hstx, ite_self,
+    Escape.ampSub_id _ hstx, hs]
+
+/-- nl2br with any of admonition, def_list, abbr, footnotes, sane_lists, wikilinks enabled as well -/
+theorem convertX_nl2br_with (x : PipelineX.Exts) (hnl : x.nl2br = true) (hf : x.fencedCode = false)
+    (htb : x.tables = false) (hal : x.attrList = false) (htoc : x.toc = false)
+    (cfg : Pipeline.Cfg) (hbl : cfg.blockLevel = TreeProc.defaultBlockLevel) (htab : 0 < cfg.tab)
+    (l0 : Str) (r : List Str) (h : ∀ l ∈ l0 :: r, PlainFacts l) :
+    PipelineX.convertX x cfg (joinLines (l0 :: r)) = .ok (nlOut cfg.fmt l0 r) := by
+  obtain ⟨s1, s2, s3, s4⟩ := src_facts l0 r h
+  have hnorm := normalize_plain_lines cfg.tab l0 r h
+  have hblk := parseDocumentXT_plain x.blockCfg cfg.tab htab l0 r h
+  have hl : ∀ l ∈ l0 :: r, l ≠ [] ∧ '\n' ∉ l ∧ Inline.STX ∉ l := fun l hl => ⟨(h l hl).ne, (h l hl).noNl, (h l hl).noStx⟩
+  obtain ⟨m, m1, m2, m3⟩ := table_nl_gen x.footnotes x.wikilinks
+  have hrun := fun (ic : Inline.Cfg) (keys : List Str) =>
+    runX_nl { cfg := ic, table := InlineX.table x.footnotes x.wikilinks true, fnKeys := keys } m m1 m2 m3 l0 r
+      (quietX_lines l0 r h) hl []
+  have hpre := prettify_nl l0 r (fun l hl => (h l hl).visible)
+  have hun := unescapeTree_nl l0 r (h l0 List.mem_cons_self).ne (fun l hl => (h l hl).noStx)
+  have hser := serialize_nl cfg.fmt l0 r (h l0 List.mem_cons_self).ne (fun l hl => (h l hl).noMarkup)
+  have hJ : Post.STX ∉ nlOut cfg.fmt l0 r := by
+    intro hm
+    simp only [nlOut, List.mem_append] at hm
+    rcases hm with ((hm | hm) | hm) | hm
+    · exact absurd hm (by decide)
+    · exact (h l0 List.mem_cons_self).noStx hm
+    · exact stx_not_mem_brOut cfg.fmt r (fun l hl => (h l (List.mem_cons_of_mem _ hl)).noStx) hm
+    · exact absurd hm (by decide)
+  have hfin := finishX_wrapped' x cfg (nlOut cfg.fmt l0 r) hJ
+    (fun c hc => by
+      have : c = '<' := by simpa [nlOut] using hc.symm
+      subst this; decide)
+    (fun c hc => by
+      have e : nlOut cfg.fmt l0 r = ("<p>".toList ++ l0 ++ brOut cfg.fmt r ++ "</p".toList) ++ ['>'] := by
+        simp [nlOut]
+      rw [e, List.getLast?_append] at hc
+      have : c = '>' := by simpa using hc.symm
+      subst this; decide)
+  have hfo : BlockExt.footnotesOf [] = [] := rfl
+  have hab : BlockExt.abbrsOf [] = [] := rfl
+  have hmk : ∀ p fc, FootnotesTree.makeDiv p fc [] [] = .ok (none, []) := fun _ _ => rfl
+  have habbr : ∀ t, AbbrTree.run [] t = t := fun _ => rfl
+  simp only [PipelineX.convertX, s1, s2, PipelineX.Exts.unsupported, Bool.false_eq_true, if_false,
+    PipelineX.treeX, PipelineX.prepareX, hnorm, s3, s4, Bool.and_false, hf, htb, hblk, hfo, hmk, hab, hnl, hal, htoc]
+  have hroot : (Node.el "div").append (Block.mkText "p" (joinLines (l0 :: r))) = nlDoc l0 r := rfl
+  cases hfn : x.footnotes <;> cases hab' : x.abbr <;>
+    simp only [hfn, hab', Bool.false_eq_true, if_false, if_true, hroot, List.map_nil, PipelineX.refsX, Bool.or_self,
+      Bool.or_true, Bool.or_false, Bool.true_or, BlockExt.refsOf, List.filter_nil, PipelineX.escX, htb, Bool.false_and] <;>
+    (rw [hfn] at hrun; rw [hrun]; simp only [duplicates_nlMid, hbl, hpre, hab, habbr, hun, hser]; exact hfin)
+
+/-! ### the duplicates tree processor on a tree without `div.footnote` -/
+
+mutual
+/-- no `div` whose class is exactly `footnote` -/
+def noFnDiv : Node → Bool
+  | ⟨tag, attrs, _, _, children, _, _⟩ =>
+    !(tag == .name "div".toList && ((attrs.find? (fun kv => kv.1 = "class".toList)).map (·.2)).getD [] == "footnote".toList)
+      && noFnDivKids children
+def noFnDivKids : List Node → Bool
+  | [] => true
+  | c :: r => noFnDiv c && noFnDivKids r
+end
+
+mutual
+theorem duplicates_noFn (fn : Footnotes.State) : (n : Node) → noFnDiv n = true → FootnotesTree.duplicates fn n = some n
+  | ⟨tag, attrs, text, ta, children, tail, tla⟩, h => by
+    simp only [noFnDiv, Bool.and_eq_true, Bool.not_eq_true'] at h
+    simp only [FootnotesTree.duplicates, duplicatesKids_noFn fn children h.2, h.1, Bool.false_eq_true, if_false]
+theorem duplicatesKids_noFn (fn : Footnotes.State) : (ns : List Node) → noFnDivKids ns = true →
+    FootnotesTree.duplicatesKids fn ns = some ns
+  | [], _ => rfl
+  | c :: r, h => by
+    simp only [noFnDivKids, Bool.and_eq_true] at h
+    simp only [FootnotesTree.duplicatesKids, duplicates_noFn fn c h.1, duplicatesKids_noFn fn r h.2]
+end
 
 end MdVerif.RenderX
